@@ -2,7 +2,10 @@ package proxy
 
 import (
 	"go.temporal.io/server/client/history"
+	"go.temporal.io/server/common/channel"
 )
+
+func channelNewShutdownOnce() channel.ShutdownOnce { return channel.NewShutdownOnce() }
 
 // ---------------------------------------------------------------------------
 // C08 — reconnecting streams never orphan, steal or crash a registration.
@@ -156,6 +159,51 @@ func verifHarness_C08_receivers() {
 		c08CheckReceiverRegistered(e, r, "successor")
 	}
 	close(srcs[nInc-1].broken)
+	verifQuiesce()
+	verifQuiesce()
+	c08CheckEmpty(e, "end")
+}
+
+// verifHarness_C08_receiversGated: two incarnations of one receiver shard that are both still
+// opening their streams (so neither evicted the other); the older one registers, then the younger
+// one registers while the older one's stream ends, in any interleaving.
+func verifHarness_C08_receiversGated() {
+	verifConfig("preempt", verifParam("preempt", 1))
+	e := rtNewEnv(1, 1)
+	var srcs [2]*rtSource
+	var rcvs [2]*proxyStreamReceiver
+	var gates [2]chan struct{}
+	for k := 0; k < 2; k++ {
+		s := e.newSource(0)
+		s.halfCloseEnds = true
+		srcs[k] = s
+		gates[k] = make(chan struct{})
+		rcv := &proxyStreamReceiver{
+			logger: e.logger, shardManager: e.sm, adminClient: &rtAdminClient{src: s, gate: gates[k]},
+			localShardCount: 1, sourceShardID: s.shard,
+			targetShardID: history.ClusterShardID{ClusterID: rtTargetCluster, ShardID: 1}, directionLabel: "verif",
+		}
+		rcvs[k] = rcv
+		go rcv.Run(channelNewShutdownOnce())
+	}
+	verifQuiesce() // both passed TerminatePreviousLocalReceiver (nothing registered yet) and wait for their streams
+	close(gates[0])
+	verifQuiesce()
+	c08CheckReceiverRegistered(e, rcvs[0], "older")
+	if verifChoose("order", 2) == 0 {
+		verifAction("younger-registers-then-older-ends")
+		close(gates[1])
+		close(srcs[0].broken)
+	} else {
+		verifAction("older-ends-then-younger-registers")
+		close(srcs[0].broken)
+		close(gates[1])
+	}
+	verifQuiesce()
+	verifQuiesce()
+	verifReach("gated-incarnations-overlapped")
+	c08CheckReceiverRegistered(e, rcvs[1], "younger")
+	close(srcs[1].broken)
 	verifQuiesce()
 	verifQuiesce()
 	c08CheckEmpty(e, "end")
